@@ -80,6 +80,9 @@ func keys(m map[string]bool) []string {
 // VerifyFunc generates all obligations for fn against its contract.
 func VerifyFunc(w *World, fn *ssa.Function, c *Contract, mode string) (res *FnResult) {
 	fc := NewFnCtx(w, fn, c, mode)
+	if c != nil && c.Flags["decfull"] {
+		fc.B.DecFull = true
+	}
 	qn := QualName(fn)
 	res = &FnResult{Fn: qn, Instrs: instrCount(fn)}
 	defer func() {
@@ -167,7 +170,7 @@ func VerifyFunc(w *World, fn *ssa.Function, c *Contract, mode string) (res *FnRe
 	base := fc.B.Script()
 	for _, p := range fc.pending {
 		o := &Obl{Name: qn + p.name, Kind: p.kind, Expect: p.expect, Src: p.src, Fn: qn, ModelVars: fc.modelVars}
-		o.Script = scriptWithout(base, p.drop) + "(assert " + p.goal + ")\n(check-sat)\n"
+		o.Script = scriptWithout(base, p.drop) + "(assert " + simplifyLine(p.goal) + ")\n(check-sat)\n"
 		res.Obls = append(res.Obls, o)
 		if rs, ok := restrictGlobal[o.Name]; ok && c != nil {
 			if re, err := ParseExpr(rs); err == nil {
